@@ -65,6 +65,8 @@ def configs(tier):
     masks = ['none', 'corner', 'row', 'interior', 'checker', 'edge', 'inf', 'neginf+nan'] + ([] if q else ['col', 'two', 'diag', 'L'])
     for g in grids:
         for mk in masks:
+            if mk == 'col' and g[1] < 4:
+                continue      # a 3-column grid minus a column leaves two x values: 1, x, x^2 are collinear (rank-deficient fits are outside the claim)
             out.append({'name': 'lstsq-%dx%d-%s' % (g[0], g[1], mk), 'kind': 'lstsq', 'grid': list(g), 'mask': mk})
     return out
 
